@@ -10,7 +10,8 @@ Line protocol of the C14 correspondence run (same request file as harness/src/bi
   expr    : `#i` | `null` | `b:true` | `i32:5` | `s:<hex>` | `(+ a b)` `(- a b)` `(* a b)` `(/ a b)`
             `(% a b)` `(= a b)` `(<> a b)` `(> a b)` `(< a b)` `(>= a b)` `(<= a b)` `(and a b)`
             `(or a b)` `(not a)` `(neg a)` `(isnull a)` `(if c t e)` `(in x (list a …))`
-            `(cast BOOLEAN|SMALLINT|INT|BIGINT|STRING a)` `(|| a b)`
+            `(cast BOOLEAN|SMALLINT|INT|BIGINT|STRING a)` `(|| a b)` `(like a s:<hex>)`
+            `(substring s b c)` `(replace a s:<hex> s:<hex>)` `(repeat s n)`
   answer  : `<model outcome> ;; <spec outcome> ;; <tag>* ;; <tag of the clean single-row evaluations>*`
             outcome = `ok <arr>` | `err` | `panic`; the spec's arrays carry no raw under NULL.
 -/
@@ -85,6 +86,17 @@ mutual
     | .list [.atom "||", a, b] => do pure (.concat (← parseExpr a) (← parseExpr b))
     | .list [.atom "if", c, t, e] => do pure (.ite (← parseExpr c) (← parseExpr t) (← parseExpr e))
     | .list [.atom "cast", .atom ty, a] => do pure (.cast (← parseTy ty) (← parseExpr a))
+    | .list [.atom "like", a, .atom p] => do
+      match parseConst p with
+      | some (.str pat) => pure (.like (← parseExpr a) pat)
+      | _ => none
+    | .list [.atom "replace", a, .atom f, .atom t] => do
+      match parseConst f, parseConst t with
+      | some (.str f), some (.str t) => pure (.replace (← parseExpr a) f t)
+      | _, _ => none
+    | .list [.atom "substring", a, b, c] => do
+      pure (.substring (← parseExpr a) (← parseExpr b) (← parseExpr c))
+    | .list [.atom "repeat", a, b] => do pure (.repeat_ (← parseExpr a) (← parseExpr b))
     | .list [.atom "in", x, .list (.atom "list" :: v :: vs)] => do
       -- `in_ = x.eq(v0); for v in rest { in_ = in_.or(x.eq(v)) }`
       let x ← parseExpr x
